@@ -178,4 +178,42 @@ def oneHotMux (priority : Bool) (sel : List Bool) (data : List Nat) (dflt : Opti
   | [x] => x                                                   -- functions.py:382-383
   | _ => treeOr allData.length (List.zipWith (fun (s : Bool) d => if s then d else 0) allSel allData)
 
+
+/-! ### one_hot_mux on signed / mixed-width operands
+
+The function returns an Amaranth `Value` whose shape is the unification of the operand shapes
+(`Mux(sel, data, C(0,0))` and `|` both unify like a mux tree); every operand is sign- or zero-extended
+to that width before the OR.  `oneHotMuxZ` is `oneHotMux` on the two's-complement images, read back
+according to the unified shape, so that the *mathematical* value of the result is modelled
+(what a consumer wider than the operands sees). -/
+
+/-- Amaranth `Shape`: width and signedness -/
+structure Shp where
+  width : Nat
+  signed : Bool
+deriving Repr, DecidableEq
+
+def maxL (l : List Nat) : Nat := l.foldr max 0
+
+/-- `Shape._unify` (amaranth/hdl/_ast.py): all unsigned → the maximal width; otherwise signed, unsigned
+    operands needing one more bit -/
+def unifyShp (l : List Shp) : Shp :=
+  if l.any (·.signed) then
+    { width := maxL (l.map (fun s => if s.signed then s.width else s.width + 1)), signed := true }
+  else { width := maxL (l.map (·.width)), signed := false }
+
+/-- two's-complement image of `z` on `W` bits -/
+def toBits (W : Nat) (z : Int) : Nat := (z % (2 : Int) ^ W).toNat
+
+/-- value of the `s.width`-bit pattern `n` read with the signedness of `s` -/
+def ofBits (s : Shp) (n : Nat) : Int :=
+  if s.signed && decide (2 ^ (s.width - 1) ≤ n) then (n : Int) - (2 : Int) ^ s.width else (n : Int)
+
+/-- `one_hot_mux` with typed operands: `(shape of the returned Value, its mathematical value)` -/
+def oneHotMuxZ (priority : Bool) (sel : List Bool) (data : List (Shp × Int)) (dflt : Option (Shp × Int)) :
+    Shp × Int :=
+  let shp := unifyShp (data.map (·.1) ++ dflt.toList.map (·.1))
+  (shp, ofBits shp (oneHotMux priority sel (data.map (fun d => toBits shp.width d.2))
+                      (dflt.map (fun d => toBits shp.width d.2))))
+
 end TxV.Encoders
